@@ -359,7 +359,9 @@ FromImports(body, acc) ==
 NoFault == [id |-> "", nth |-> 0]
 \* fl: name of a template whose load fails with the injected fault ("" = none)
 MkWF(tp, polF, polFn, fault, fl) ==
-    [tp |-> tp, polF |-> polF, polFn |-> polFn, fault |-> fault, fl |-> fl]
+    [tp |-> tp, polF |-> polF, polFn |-> polFn, fault |-> fault, fl |-> fl, globals |-> EmptyFn]
+\* engine globals: the outermost scope of every template (also of an include ... only and of a macro body)
+WithGlobals(W, g) == [W EXCEPT !.globals = g]
 MkW(tp, polF, polFn, fault) == MkWF(tp, polF, polFn, fault, "")
 \* outcome of loading template name t: "" ok, else the error kind
 LoadErr(W, t) == IF t = W.fl THEN "fault" ELSE IF t \notin DOMAIN W.tp THEN "notfound" ELSE ""
@@ -492,6 +494,8 @@ Eval(e, A, sc, calls) ==
            ELSE IF r.v.t = "loop" THEN ROk(LoopAttr(r.v, e.n), r.calls)
            ELSE IF r.v.t = "map" THEN ROk(MapGet(r.v, VS(NameText(e.n))), r.calls)
            ELSE IF r.v.t = "null" THEN ROk(Null, r.calls)
+           \* a Go value whose method of that name returns an error: reading the attribute fails the render
+           ELSE IF r.v.t = "errobj" THEN RErr("fault", r.calls)
            ELSE RErr("frag", r.calls)
       [] e.k = "item" ->
            LET r == Eval(e.e, A, sc, calls) IN
@@ -516,6 +520,11 @@ Eval(e, A, sc, calls) ==
                     CASE e.tn \in {"st", "stx"} /\ Len(e.args) = 1 /\ e.args[1].k = "lit" /\ e.args[1].v.t = "id" ->
                            Invoke("test", e.tn, e.args[1].v.id, A, r.calls, VB(TRUE))     \* spy test: true
                       [] e.tn = "defined" /\ e.e.k = "var" -> ROk(VB(e.e.n \in DOMAIN sc), r.calls)
+                      \* x.k is defined: does the map have the key (x itself has been evaluated above: its failures surface)
+                      [] e.tn = "defined" /\ e.e.k = "attr" ->
+                           LET b == Eval(e.e.e, A, sc, calls) IN
+                           IF b.v.t = "map" THEN ROk(VB(MapHas(b.v, VS(NameText(e.e.n)))), r.calls)
+                           ELSE IF b.v.t = "null" THEN ROk(VB(FALSE), r.calls) ELSE RErr("frag", r.calls)
                       [] e.tn = "empty" -> ROk(VB(IsEmptyVal(r.v)), r.calls)
                       [] e.tn = "null" -> ROk(VB(r.v.t = "null"), r.calls)
                       [] e.tn = "even" /\ r.v.t = "int" -> ROk(VB(r.v.i % 2 = 0), r.calls)
@@ -532,7 +541,7 @@ Eval(e, A, sc, calls) ==
                 ELSE LET def == BlockDef(A.W, A.chain[j], A.blk)
                          st  == Exec(def.body, [WithSelf(A, A.chain[j]) EXCEPT !.lvl = j],
                                      [St0(sc) EXCEPT !.calls = calls])
-                     IN IF ~st.ok THEN RErr(st.err, st.calls) ELSE ROk([t |-> "safe", s |-> st.out], st.calls)
+                     IN IF ~st.ok THEN RErr(st.err, st.calls) ELSE ROk(VS(st.out), st.calls)    \* the text it rendered: a string like any other
            \* a macro visible under the name wins over a built-in function of that name (C12: a macro is the
            \* same macro by every route, whatever it is called)
            ELSE IF e.f \in {"max", "min"} /\ e.f \notin DOMAIN A.fm /\ ~HasMacro(A.W, A.self, e.f) THEN
@@ -590,11 +599,11 @@ CallMacro(t, n, args, A, sc, calls) ==
     IF A.depth >= MaxDepth THEN RErr("frag", calls)
     ELSE LET mac == GetMacro(A.W, t, n)
              MA  == [MkA(A.W, t, A.sb) EXCEPT !.depth = A.depth + 1]
-             bp  == BindParams(mac.ps, args, 1, MA, EmptyFn, calls)
+             bp  == BindParams(mac.ps, args, 1, MA, A.W.globals, calls)
          IN IF ~bp.ok THEN RErr(bp.err, bp.calls)
             ELSE LET st == Exec(mac.body, MA, [St0(bp.sc) EXCEPT !.calls = bp.calls]) IN
                  IF ~st.ok THEN RErr(st.err, st.calls)
-                 ELSE ROk([t |-> "safe", s |-> st.out], st.calls)
+                 ELSE ROk(VS(st.out), st.calls)    \* the text it rendered: a string like any other
 
 Exec(body, A, st) ==
     IF ~st.ok \/ body = <<>> THEN st
@@ -642,7 +651,15 @@ RenderTemplate(t, A0, sc, st) ==
          IF ~ch.ok THEN StErr(st, ch.err, ch.calls)
          ELSE LET base == ch.chain[Len(ch.chain)]
                   A2 == [WithSelf(A1, base) EXCEPT !.chain = ch.chain, !.lvl = Len(ch.chain)]
-                  r  == Exec(A0.W.tp[base], A2, [sc |-> sc, out |-> <<>>, calls |-> ch.calls, ok |-> TRUE, err |-> ""])
+                  \* the assignments a child makes at its top level are in force in everything rendered for it (its
+                  \* other top-level content produces nothing): most derived template first
+                  RECURSIVE ChildSets(_, _)
+                  ChildSets(i, st0) ==
+                      IF i >= Len(ch.chain) \/ ~st0.ok THEN st0
+                      ELSE ChildSets(i + 1, Exec(SelectSeq(A0.W.tp[ch.chain[i]], LAMBDA x : x.k = "set"),
+                                                  [WithSelf(A1, ch.chain[i]) EXCEPT !.chain = ch.chain, !.lvl = i], st0))
+                  pre == ChildSets(1, [sc |-> sc, out |-> <<>>, calls |-> ch.calls, ok |-> TRUE, err |-> ""])
+                  r  == IF ~pre.ok THEN pre ELSE Exec(A0.W.tp[base], A2, pre)
               IN IF ~r.ok THEN StErr(st, r.err, r.calls)
                  ELSE [st EXCEPT !.out = st.out \o r.out, !.calls = r.calls]
 
@@ -712,7 +729,7 @@ ExecStmt(s, A, st) ==
                 IF ~TextIsName(nm) \/ NameOfText(nm) \notin DOMAIN A.W.tp THEN
                         IF s.ign THEN [st EXCEPT !.calls = w.calls] ELSE StErr(st, "notfound", w.calls)
                 ELSE IF LoadErr(A.W, NameOfText(nm)) # "" THEN StErr(st, LoadErr(A.W, NameOfText(nm)), w.calls)
-                ELSE LET base == IF s.only THEN EmptyFn ELSE st.sc
+                ELSE LET base == IF s.only THEN A.W.globals ELSE st.sc
                          RECURSIVE AddAll(_, _)
                          AddAll(sc0, i) == IF i > Len(w.v.ks) THEN sc0
                                            ELSE AddAll(Bind(sc0, NameOfText(w.v.ks[i].s), w.v.vs[i]), i + 1)
@@ -720,11 +737,9 @@ ExecStmt(s, A, st) ==
                          A1 == [A EXCEPT !.sb = A.sb \/ s.sbx]
                      IN RenderTemplate(NameOfText(nm), A1, isc, [st EXCEPT !.calls = w.calls])
       [] s.k = "spaceless" ->
-           \* the tag works through the spaceless filter: under a sandbox whose policy does not allow that filter the
-           \* engine leaves the body as it is; the properties say nothing about that, so such a body must not need it
+           \* (the tag does this itself: it is no application of a filter, the sandbox's filter list does not apply to it)
            LET inner == Exec(s.body, A, [st EXCEPT !.out = <<>>]) IN
            IF ~inner.ok THEN [inner EXCEPT !.out = st.out]
-           ELSE IF A.sb /\ "spaceless" \notin A.W.polF /\ SpacelessText(inner.out) # inner.out THEN StErr(st, "frag", inner.calls)
            ELSE [inner EXCEPT !.out = st.out \o SpacelessText(inner.out)]
       [] s.k = "apply" ->
            LET inner == Exec(s.body, A, [st EXCEPT !.out = <<>>]) IN
@@ -748,8 +763,9 @@ ExecStmt(s, A, st) ==
 \* top level: render template `entry` of world W with context sc
 \* result: [ok, out, err, calls]
 \* ---------------------------------------------------------------------------
-Render(W, entry, sc) ==
+Render(W, entry, sc0) ==
     LET A0 == MkA(W, entry, FALSE)
+        sc == sc0 @@ W.globals          \* the context is in front of the globals
         st == RenderTemplate(entry, A0, sc, St0(sc))
     IN [ok |-> st.ok, out |-> IF st.ok THEN st.out ELSE <<>>, err |-> st.err, calls |-> st.calls]
 
